@@ -226,6 +226,19 @@ impl<K: CacheKey + 'static> MultiLayerCacheImpl<K> {
         })
     }
 
+    /// Drop copies of `key` from the layers below the first one
+    ///
+    /// A whole-cache put stores the new value in the first layer only. An
+    /// older value left in a slower layer would be answered again once the
+    /// first layer evicts or expires the key (and `promote` would copy it
+    /// over the new one), so it has to go.
+    async fn invalidate_slower_layers(&self, key: &K) -> CacheResult<()> {
+        for layer in self.layers.iter().skip(1) {
+            layer.remove(key).await?;
+        }
+        Ok(())
+    }
+
     /// Check if an entry should be promoted based on the configured strategy
     ///
     /// Takes the tracker entry itself: the caller already holds the tracker
@@ -444,6 +457,7 @@ impl<K: CacheKey + 'static> MultiLayerCacheImpl<K> {
 
         // Store in first layer (L1 - fastest) if validation passed
         self.layers[0].put(key.clone(), value).await?;
+        self.invalidate_slower_layers(&key).await?;
 
         // Initialize promotion tracking
         if let Ok(mut tracker) = self.promotion_tracker.write() {
@@ -506,6 +520,7 @@ impl<K: CacheKey + 'static> MultiLayerCacheImpl<K> {
 
         // Store in first layer (L1 - fastest) if validation passed
         self.layers[0].put_with_ttl(key.clone(), value, ttl).await?;
+        self.invalidate_slower_layers(&key).await?;
 
         // Initialize promotion tracking
         if let Ok(mut tracker) = self.promotion_tracker.write() {
@@ -821,7 +836,10 @@ impl<K: CacheKey + 'static> AsyncCache<K> for MultiLayerCacheImpl<K> {
         let start_time = Instant::now();
 
         // Store in first layer (L1 - fastest)
-        let result = self.layers[0].put(key.clone(), value).await;
+        let mut result = self.layers[0].put(key.clone(), value).await;
+        if result.is_ok() {
+            result = self.invalidate_slower_layers(&key).await;
+        }
 
         // Initialize promotion tracking
         if result.is_ok()
@@ -839,7 +857,10 @@ impl<K: CacheKey + 'static> AsyncCache<K> for MultiLayerCacheImpl<K> {
         let size_bytes = value.len();
 
         // Store in first layer (L1 - fastest)
-        let result = self.layers[0].put_with_ttl(key.clone(), value, ttl).await;
+        let mut result = self.layers[0].put_with_ttl(key.clone(), value, ttl).await;
+        if result.is_ok() {
+            result = self.invalidate_slower_layers(&key).await;
+        }
 
         // Initialize promotion tracking
         if result.is_ok()
